@@ -121,8 +121,10 @@ def finish(run: Run, seed: int = 0) -> int:
     ev_dir = os.path.join(VERIF, "evidence")
     if os.environ.get("SA_NO_EVIDENCE"):
         # ad-hoc runs against scratch copies (tools/seedcheck.py) must not overwrite the committed evidence
+        # (one shared directory, overwritten by every ad-hoc run, so that such runs do not pile up under /tmp)
         import tempfile
-        ev_dir = tempfile.mkdtemp(prefix="sa_ev_")
+        v = os.environ["SA_NO_EVIDENCE"]
+        ev_dir = v if os.path.isabs(v) else os.path.join(tempfile.gettempdir(), "sa_ev_adhoc")
     os.makedirs(os.path.join(ev_dir, "replay"), exist_ok=True)
     for o in new:
         h = hashlib.sha1(o.key.encode()).hexdigest()[:10]
